@@ -44,7 +44,7 @@ impl<'a> Visitor for V<'a> {
         };
         let fam = cx.fam();
         let d = describe_step(cx);
-        if fam == FamId::CombinedEd && secp_valid_entry(&post.pairs) && !crate::engine::strict() && crate::engine::is_known(crate::props::c05::KNOWN_COMBINED_ED) {
+        if known_combined_state(fam, post) && !crate::engine::strict() && crate::engine::is_known(crate::props::c05::KNOWN_COMBINED_ED) {
             self.st.known(crate::props::c05::KNOWN_COMBINED_ED);
             self.stop = true;
             return Ok(());
